@@ -929,6 +929,34 @@ def module_item(item, col):
             if snap(g0) != s0 or s0 != versions[k0]["snap"] or snap(g1) != versions[k1]["snap"]:
                 col.violation(SIG.format(entry, "restored-module-changed-by-a-later-restore"), dict(case, first_still_equal=snap(g0) == s0,
                                                                                                    later_equal=snap(g1) == versions[k1]["snap"]))
+        # two DIFFERENT modules recorded one after the other under the same key (a logger reused for a second training, a
+        # freshly built network): each checkpoint restores to the module that was handed over for it
+        mA, mB = build(kind, s, alt=False), build(kind, s, alt=True)
+        perturb(mB, s + 5)
+        if snap(mA) != snap(mB):
+            for cname, mk in (("OrbaxCheckpointer", lambda d: OrbaxCheckpointer(checkpoint_dir=d)), ("StandardLogger", lambda d: StandardLogger(checkpoint_dir=d))):
+                entry = f"{cname}.record_epoch+restore_checkpoint"
+                case = dict(base, scenario="two modules under one key")
+                try:
+                    with quiet():
+                        lg2 = mk(os.path.join(tmp, "two-" + cname))
+                        lg2.define_experiment("Env", "Alg")
+                        lg2.define_checkpoint_frequency("net", 1)
+                        lg2.record_epoch("net", mA, **(dict(step=1) if cname == "OrbaxCheckpointer" else {}))
+                        lg2.record_epoch("net", mB, **(dict(step=2) if cname == "OrbaxCheckpointer" else {}))
+                        paths = list(lg2.checkpoint_path["net"])
+                        got = [snap(pe.restore_checkpoint(pth, build(kind, s, alt=bool(i)))) for i, pth in enumerate(paths[:2])]
+                except Exception as e:  # noqa: BLE001
+                    col.tick(1)
+                    col.violation(SIG.format(entry, K_RAISE), dict(case, raised=f"{type(e).__name__}: {str(e)[:300]}"))
+                    continue
+                col.tick(2, (kind, pset, s, cname, "two-modules-one-key"))
+                col.outcome("checkpoints_of_two_modules_under_one_key")
+                if len(got) < 2:
+                    col.violation(SIG.format(entry, K_NOCKPT), dict(case, paths=paths))
+                elif got[0] != snap(mA) or got[1] != snap(mB):
+                    col.violation(SIG.format(entry, K_STATE), dict(case, first_equals_first_module=got[0] == snap(mA), second_equals_second_module=got[1] == snap(mB),
+                                                                   second_equals_first_module=got[1] == snap(mA)))
         col.sample(dict(base, versions=K, artefacts=" ".join(f"v{k}:{r}" for k, r, _ in saved), n_variables=len(versions[0]["snap"]),
                         variable_types=sorted({t for _, t in versions[0]["vtypes"]})))
     finally:
